@@ -464,14 +464,21 @@ BYTESV = [b"", b"\x00", b"\x00\x00", b"a", b"a\x00", b"\x00a", b"\xff", b"\x80ab
 
 def st_val(kind):
     if kind == "int":
-        return st.one_of(st.sampled_from(INTS), st.integers(-2 ** 70, 2 ** 70), st.integers(-300, 300))
+        return st.one_of(st.sampled_from(INTS), st.integers(-2 ** 70, 2 ** 70), st.integers(-300, 300),
+                         st.integers(2, 5000).flatmap(lambda b: st.integers(-2 ** b, 2 ** b)))
     if kind == "float":
         return st.one_of(st.sampled_from(FLOATS), st.floats(allow_nan=True, allow_infinity=True),
                          st.floats(-1e6, 1e6))
     if kind == "str":
-        return st.one_of(st.sampled_from(TEXTS), st.text(max_size=12))
+        return st.one_of(st.sampled_from(TEXTS), st.text(max_size=12), st.text(max_size=12),
+                         st.sampled_from([31, 32, 63, 64, 65, 127, 128, 255, 256, 257, 1000, 4096, 16384]).flatmap(
+                             lambda n: st.sampled_from(["a", "é", "\x00", " ", "日"]).map(lambda c: c * n)),
+                         st.text(min_size=40, max_size=300))
     if kind == "bytes":
-        return st.one_of(st.sampled_from(BYTESV), st.binary(max_size=12))
+        return st.one_of(st.sampled_from(BYTESV), st.binary(max_size=12), st.binary(max_size=12),
+                         st.sampled_from([31, 32, 63, 64, 65, 127, 128, 255, 256, 257, 1000, 4096, 16384]).flatmap(
+                             lambda n: st.sampled_from([b"a", b"\xff", b"\x00", b"'"]).map(lambda c: c * n)),
+                         st.binary(min_size=40, max_size=300))
     return st.booleans()
 
 
